@@ -614,3 +614,20 @@ func (a *Analysis) Instances(n ast.Node) []Instance {
 	}
 	return out
 }
+
+// IsExpandedCall reports whether this call was expanded in place (its body is part of the function's graph).
+func (f *Fn) IsExpandedCall(call *ast.CallExpr) bool { return f.inlCall[call] }
+
+// ResultSite returns the expanded call whose k-th result the temporary obj stands for (nil, 0 if obj is no such temporary).
+func (f *Fn) ResultSite(obj types.Object) (*InlSite, int) {
+	for _, ss := range f.inlAt {
+		for _, s := range ss {
+			for k, r := range s.Res {
+				if types.Object(r) == obj {
+					return s, k
+				}
+			}
+		}
+	}
+	return nil, 0
+}
